@@ -65,10 +65,14 @@ func FormatExamples(format, loc string) []any {
 
 // patternTable: patterns used by the families with matching and non-matching strings.
 var patternTable = map[string][]string{
-	"^[a-c]+$":  {"abc", "a", "abd", "", "A"},
-	"^a.c$":     {"abc", "a c", "ac", "abcd"},
-	"[0-9]{2}":  {"12", "a12b", "1", "x"},
-	"^(x|yy)+$": {"x", "yyx", "y", "xyz"},
+	"^[a-c]+$":      {"abc", "a", "abd", "", "A"},
+	"^a.c$":         {"abc", "a c", "ac", "abcd"},
+	"[0-9]{2}":      {"12", "a12b", "1", "x"},
+	"^(x|yy)+$":     {"x", "yyx", "y", "xyz"},
+	"^[0-9]{1,3}%$": {"50%", "100%", "50", "%", "5%!$(MISSING)"},
+	"^a%%b%d$":      {"a%%b%d", "a%b%d", "a%b7", "ab"},
+	`^\d+\.\d+$`:    {"1.5", "15", "a.b", "12.25"},
+	"^`b`$":         {"`b`", "b", "`b"},
 }
 
 // PatternExamples returns strings on both sides of the pattern (classified by the reference
